@@ -24,5 +24,8 @@ def run(project, rep):
     rep.run(G.g_r12_fid_repair_keeps_the_element, project, rep)
     rep.run(G.g_r13_nickname_looked_up_as_given, project, rep)
     rep.run(G.g_r14_write_always_writes, project, rep)
+    rep.run(G.g_r7b_persist_predicate_table, project, rep)
     from .. import rules_values as V
     rep.run(V.v_r8_token_tables, project, rep, modules_prefix=("ofxtools.scripts.ofxget",))
+    from .. import rules_values as _V15
+    rep.run(_V15.v_r15_no_html5_entity_decoder, project, rep)
